@@ -21,8 +21,8 @@ from .server.config import ServerConfig
 from .server.server import start_server
 
 # Create console instances
-console = Console()
-error_console = Console(stderr=True, style="bold red")
+console = Console(emoji=False)  # ":x:" in text from a server is text, not an emoji code
+error_console = Console(stderr=True, style="bold red", emoji=False)
 
 app = typer.Typer(
     name="nauyaca",
